@@ -59,12 +59,21 @@ CLAIM = dict(
           "really cannot reach each other (route_disconnected_is_real); (11) legacy_two_parents_witness: on the "
           "machine of corpus/C03/f3-two-parents-2x4.json the UNFIXED loop (parent searched only inside "
           "lookup[child]) leaves a node with two parent links and an invalid tree, the fixed loop a valid one "
-          "(kernel-evaluated). VALIDATED, not proved: that the Lean model computes what the Python code computes "
-          "(exact stage-wise correspondence of ner_net, route_has_dead_links, copy_and_disconnect_tree, every "
-          "a_star path, avoid_dead_links, the attached sinks and the outcome, with recorded random draws and set "
-          "orders), that route() treats the nets of one call independently, and - on the implementation's own "
-          "output - validTree evaluated on every tree the real router returns, the error clause being decided by "
-          "the Lean strong-connectivity computation cross-checked against an independent Python one."),
+          "(kernel-evaluated); (12) ROUND 4, several nets in one route() call: the model routeNets runs the loop body "
+          "per net and threads nothing but the oracle tape; routeNets_independent: the call succeeds with results rs "
+          "iff net by net routeNet on that net's own inputs and its own part of the tape returns rs[i] - no tree, "
+          "lookup or leaf is carried over; routeNets_valid: every net of a successful call gets a valid routing tree "
+          "for ITS OWN sinks; routeNets_only_failure: a call fails only with MachineHasDisconnectedSubregion (never "
+          "on a strongly connected machine) or an oracle error. VALIDATED, not proved: that the Lean model computes "
+          "what the Python code computes - exact stage-wise correspondence of ner_net, route_has_dead_links, "
+          "copy_and_disconnect_tree, every a_star path, avoid_dead_links, the attached sinks and the outcome, with "
+          "recorded random draws and set orders, both for single nets and, net by net, for route() calls with 2-6 "
+          "nets (nets between the same chips with other sink vertices / cores / endpoint routes, identical nets, the "
+          "same Net object twice, partially overlapping nets, a vertex that is a sink of several nets) against "
+          "routeNets; and - on the implementation's own output - validTree evaluated on EVERY net's tree against "
+          "that net's own sinks, plus the check that the trees of different Net objects share no RoutingTree node "
+          "object; the error clause being decided by the Lean strong-connectivity computation cross-checked against "
+          "an independent Python one."),
     design="3/C03",
     note=("All theorems are about the Lean model of the FIXED code (fixes/c03-avoid-dead-links-parent.diff applied: "
           "model flag legacy = false); for the unfixed loop avoidDeadLinks_valid is false (legacy_two_parents_witness). "
@@ -93,13 +102,18 @@ THEOREMS = ["link_tables", "validTree_iff", "validTree_connects", "aStar_path", 
             "avoidDeadLinks_valid", "legacy_two_parents_witness",
             "copyAndDisconnect_total", "repairOne_only_disconnected", "route_only_failure",
             "route_succeeds_strongly_connected", "stronglyConnected_complete", "stronglyConnected_iff",
-            "route_disconnected_is_real", "nerNet_leaves_are_dests", "routeNet_valid"]
+            "route_disconnected_is_real", "nerNet_leaves_are_dests", "routeNet_valid",
+            # round 4: all nets of one route() call
+            "routeNets_independent", "routeNetsRun_eq", "routeNets_valid", "routeNets_only_failure"]
 
 RULE = ("machines 1x1..12x12 (incl. 1xN, 2xN), torus / mesh / partly wrapped, 0-30% dead directed links (half of them "
-        "dead in one direction only), dead chips; one net per case with fan-out 0-12, sinks on the source chip, "
+        "dead in one direction only), dead chips; single-net stream: one net per case with fan-out 0-12, sinks on the source chip, "
         "duplicated sinks, the source vertex as its own sink, cores / no cores / endpoint routes; radius in "
         "{0,1,2,20}; thorough adds every fault map with <= 2 dead directed links (and each single dead chip) on 2x2, "
-        "1x3, 2x3, 3x3. A case is non-trivial when the dead-link repair ran with at least one A* detour or the net "
+        "1x3, 2x3, 3x3; multi-net stream (500 quick / 15000 thorough): ONE route() call with 2-6 nets drawn from a small "
+        "pool of chips - same source chip and same set of sink chips but other vertices / cores / endpoint routes, "
+        "identical nets, the same Net object twice, partial overlaps, shared sink vertices - non-trivial when two nets "
+        "between the same chips differ in their sinks or an A* detour occurred. A single-net case is non-trivial when the dead-link repair ran with at least one A* detour or the net "
         "has >= 3 distinct destination chips; distinct = distinct canonical JSON of the case")
 
 SCALE = 1 << 20
@@ -512,6 +526,352 @@ def eval_cases(ctx, cases):
 
 
 # --------------------------------------------------------------------------------------------
+# several nets in ONE route() call: every net must get its own tree with its own leaves
+def gen_multi(rng, mach):
+    dead = set(map(tuple, mach["dead_chips"]))
+    live = [(x, y) for x in range(mach["w"]) for y in range(mach["h"]) if (x, y) not in dead]
+    pool = [rng.choice(live) for _ in range(rng.choice([2, 3, 4, 6]))]      # few chips => many coincidences
+    place, kinds = {}, {}
+
+    def new_vertex(chip):
+        v = len(place)
+        place[v] = list(chip)
+        kinds[v] = gen_kind(rng)
+        return v
+
+    def pick():
+        return rng.choice(pool) if rng.random() < 0.8 else rng.choice(live)
+
+    def fresh_net():
+        src = new_vertex(pick())
+        sinks = [new_vertex(pick()) for _ in range(rng.choice([1, 1, 2, 3, 4]))]
+        if rng.random() < 0.15:
+            sinks.append(rng.choice(sinks))
+        if rng.random() < 0.1:
+            sinks.append(src)
+        return dict(source=src, sinks=sinks, same_as=None)
+
+    nets = [fresh_net()]
+    for _ in range(rng.randint(1, 5)):
+        base_i = rng.randrange(len(nets))
+        base = nets[base_i]
+        mode = rng.choice(["same_chips", "same_chips", "same_chips", "identical", "same_object", "share_some",
+                           "shared_vertex", "fresh"])
+        if mode == "same_chips":
+            # same source chip, the same SET of sink chips, but other vertices / cores / endpoint routes
+            src = base["source"] if rng.random() < 0.4 else new_vertex(place[base["source"]])
+            chips = []
+            for v in base["sinks"]:
+                if place[v] not in chips:
+                    chips.append(place[v])
+            rng.shuffle(chips)
+            sinks = []
+            for c in chips:
+                for _ in range(rng.choice([1, 1, 2])):
+                    sinks.append(new_vertex(c))
+            nets.append(dict(source=src, sinks=sinks, same_as=None))
+        elif mode == "identical":
+            nets.append(dict(source=base["source"], sinks=list(base["sinks"]), same_as=None))
+        elif mode == "same_object":
+            root_i = base_i if base["same_as"] is None else base["same_as"]
+            nets.append(dict(source=base["source"], sinks=list(base["sinks"]), same_as=root_i))
+        elif mode == "share_some":
+            src = base["source"] if rng.random() < 0.5 else new_vertex(place[base["source"]])
+            keep = [v for v in base["sinks"] if rng.random() < 0.6]
+            sinks = [new_vertex(place[v]) if rng.random() < 0.5 else v for v in keep]
+            sinks += [new_vertex(pick()) for _ in range(rng.choice([0, 1, 2]))]
+            if not sinks:
+                sinks = [new_vertex(pick())]
+            nets.append(dict(source=src, sinks=sinks, same_as=None))
+        elif mode == "shared_vertex":
+            # the same vertex is a sink of several nets
+            n = fresh_net()
+            n["sinks"].append(rng.choice(base["sinks"]))
+            rng.shuffle(n["sinks"])
+            nets.append(n)
+        else:
+            nets.append(fresh_net())
+    return dict(kind="multi", machine=mach, place={str(k): v for k, v in place.items()},
+                kinds={str(k): v for k, v in kinds.items()}, nets=nets, radius=rng.choice([0, 1, 2, 20, 20]),
+                rseed=rng.randrange(1 << 30))
+
+
+def multi_sinks_json(case, net):
+    out = []
+    for v in net["sinks"]:
+        k, a, b = case["kinds"][str(v)]
+        x, y = case["place"][str(v)]
+        out.append([v, x, y, k, a, b])
+    return out
+
+
+def node_ids(root, limit):
+    """ids of the RoutingTree objects reachable from root (bounded; the graph may be cyclic when broken)"""
+    from rig.place_and_route.routing_tree import RoutingTree
+    seen, todo = {}, [root]
+    while todo and len(seen) < limit:
+        n = todo.pop()
+        if id(n) in seen:
+            continue
+        seen[id(n)] = n
+        for _, ch in n.children:
+            if isinstance(ch, RoutingTree):
+                todo.append(ch)
+    return seen
+
+
+def leaves_of_lookup(lookup):
+    from rig.place_and_route.routing_tree import RoutingTree
+    leaves = {}
+    for chip, node in lookup.items():
+        lv = [[None if r is None else int(r), c] for r, c in node.children if not isinstance(c, RoutingTree)]
+        if lv:
+            leaves["%d,%d" % chip] = lv
+    return leaves
+
+
+def run_impl_multi(case):
+    """ONE route() call of the real code with all nets of the case; returns (result, recs): one record per
+    ner_net call (= per net, in the unchanged code)"""
+    from rig.place_and_route.route import ner
+    from rig.place_and_route.route import utils as rutils
+    import rig.geometry as geometry
+    from rig.place_and_route.machine import Cores
+    from rig.place_and_route.constraints import RouteEndpointConstraint
+    from rig.netlist import Net
+    from rig.routing_table import Routes
+
+    mach = case["machine"]
+    machine = build_machine(mach)
+    place = {int(k): tuple(v) for k, v in case["place"].items()}
+    kinds = {int(k): v for k, v in case["kinds"].items()}
+    allocations, constraints = {}, []
+    for v, (k, a, b) in sorted(kinds.items()):
+        if k == 1:
+            allocations[v] = {Cores: slice(a, b)}
+        elif k == 2:
+            constraints.append(RouteEndpointConstraint(v, Routes(a)))
+            allocations[v] = {}
+        elif v % 2:
+            allocations[v] = {}
+    objs = []
+    for n in case["nets"]:
+        objs.append(objs[n["same_as"]] if n["same_as"] is not None else Net(n["source"], list(n["sinks"])))
+    tape, recs = [], []
+    fake = FakeRandom(case["rseed"], tape)
+    orig = (geometry.random, rutils.random, ner.ner_net, ner.copy_and_disconnect_tree, ner.a_star,
+            ner.avoid_dead_links)
+
+    def w_ner_net(source, destinations, width, height, wrap_around=False, radius=10):
+        dl = list(destinations)
+        rec = dict(dests=[list(d) for d in dl], wrap=bool(wrap_around), copy=None, order=None, paths=[],
+                   astar_calls=[], repaired=False)
+        recs.append(rec)
+        root, lookup = orig[2](source, dl, width, height, wrap_around, radius)
+        rec["ner"] = forest_of_lookup(lookup)
+        rec["lookup"] = lookup
+        return root, lookup
+
+    def w_copy(root, m):
+        new_root, lookup, broken = orig[3](root, m)
+        if recs:
+            recs[-1]["copy"] = dict(lookup=forest_of_lookup(lookup),
+                                    broken=sorted([p[0], p[1], c[0], c[1]] for p, c in broken),
+                                    root=list(new_root.chip))
+            recs[-1]["order"] = [[p[0], p[1], c[0], c[1]] for p, c in broken]
+        return new_root, lookup, broken
+
+    def w_a_star(sink, hsrc, sources, m, wrap):
+        call = dict(sink=list(sink), hsrc=list(hsrc), sources=sorted(map(list, sources)), wrap=bool(wrap))
+        if recs:
+            recs[-1]["astar_calls"].append(call)
+        path = orig[4](sink, hsrc, sources, m, wrap)
+        call["path"] = [[int(d), c[0], c[1]] for d, c in path]
+        if recs:
+            recs[-1]["paths"].append(call["path"])
+        return path
+
+    def w_avoid(root, m, wrap_around=False):
+        if recs:
+            recs[-1]["repaired"] = True
+        root, lookup = orig[5](root, m, wrap_around)
+        if recs:
+            recs[-1]["lookup"] = lookup
+        return root, lookup
+
+    geometry.random, rutils.random = fake, fake
+    ner.ner_net, ner.copy_and_disconnect_tree, ner.a_star, ner.avoid_dead_links = w_ner_net, w_copy, w_a_star, w_avoid
+    try:
+        try:
+            routes = ner.route({v: {} for v in place}, list(objs), machine, constraints, place, allocations,
+                               Cores, case["radius"])
+        except RecursionError as e:
+            return {"err": "RecursionError", "tape": tape}, recs
+        except Exception as e:      # every exception is an outcome to be judged
+            return {"err": err_name(e), "msg": str(e)[:200], "tape": tape}, recs
+    finally:
+        (geometry.random, rutils.random, ner.ner_net, ner.copy_and_disconnect_tree, ner.a_star,
+         ner.avoid_dead_links) = orig
+    limit = 4 * mach["w"] * mach["h"] + 20
+    trees, ids, roots = [], [], []
+    for o in objs:
+        root = routes[o]
+        roots.append(root)
+        trees.append(nest(root, [2 * mach["w"] * mach["h"] + 10]))
+        ids.append(node_ids(root, limit))
+    return {"ok": dict(trees=trees, ids=ids, roots=roots, objs=objs), "tape": tape}, recs
+
+
+def eval_multi(ctx, cases):
+    impl = [run_impl_multi(c) for c in cases]
+    reqs = []
+    for c, (res, recs) in zip(cases, impl):
+        mach = c["machine"]
+        reqs.append(mreq(mach, op="machine"))
+        nets_json = []
+        for i, n in enumerate(c["nets"]):
+            rec = recs[i] if i < len(recs) else None
+            dests = rec["dests"] if rec else sorted(set(tuple(c["place"][str(v)]) for v in n["sinks"]))
+            nets_json.append(dict(source=c["place"][str(n["source"])], dests=[list(d) for d in dests],
+                                  order=(rec["order"] if rec and rec["order"] else []),
+                                  sinks=multi_sinks_json(c, n)))
+        reqs.append(mreq(mach, op="route_nets", nets=nets_json, radius=c["radius"], tape=res["tape"], legacy=False))
+        if "ok" in res:
+            for n, tree in zip(c["nets"], res["ok"]["trees"]):
+                reqs.append(mreq(mach, op="valid_tree", source=c["place"][str(n["source"])],
+                                 sinks=multi_sinks_json(c, n), tree=tree))
+        for rec in recs:
+            for call in rec["astar_calls"]:
+                if "path" in call:
+                    reqs.append(mreq(mach, op="path_ok", sink=call["sink"], sources=call["sources"],
+                                     path=call["path"]))
+    replies = iter(ctx.lean(reqs))
+    for c, (res, recs) in zip(cases, impl):
+        mach, nets = c["machine"], c["nets"]
+        minfo = next(replies)
+        model = next(replies)
+        verdicts = [next(replies) for _ in nets] if "ok" in res else []
+        for rec in recs:
+            for call in rec["astar_calls"]:
+                if "path" in call and next(replies) is not True:
+                    ctx.mismatch("c03.a_star_spec", "the Lean specification pathOk is false on a path a_star "
+                                 "returned inside route(): %s" % str(call)[:300], c)
+        ctx.traces += 1
+        strong = py_strong(mach)
+        if minfo.get("strong") != strong:
+            ctx.mismatch("c03.strongly_connected", "lean=%r python=%r" % (minfo.get("strong"), strong), c)
+        # --- the property oracle on the implementation's own outcome, net by net
+        if "ok" in res:
+            io = res["ok"]
+            for i, (n, verdict) in enumerate(zip(nets, verdicts)):
+                if not verdict.get("valid"):
+                    why = verdict.get("why") or ["protocol"]
+                    ctx.violation(why[0], "route() with %d nets in one call: the tree returned for net %d (source "
+                                  "vertex %r on chip %r) is not a valid routing tree for that net's own sinks %r "
+                                  "(%s)" % (len(nets), i, n["source"], c["place"][str(n["source"])],
+                                            multi_sinks_json(c, n), ",".join(why)), c)
+                if verdict.get("stubs"):
+                    ctx.tag("stub_branch_left_by_repair")
+            # no RoutingTree object may be shared between the trees of two different Net objects
+            for i in range(len(nets)):
+                for j in range(i + 1, len(nets)):
+                    if io["objs"][i] is io["objs"][j]:
+                        continue
+                    if set(io["ids"][i]) & set(io["ids"][j]):
+                        same = (c["place"][str(nets[i]["source"])] == c["place"][str(nets[j]["source"])] and
+                                sorted(map(tuple, multi_sinks_json(c, nets[i]))) ==
+                                sorted(map(tuple, multi_sinks_json(c, nets[j]))))
+                        if same:
+                            ctx.tag("alias_between_identical_nets")
+                        else:
+                            ctx.violation("tree-shared-between-nets",
+                                          "route() with %d nets in one call: the trees of net %d and net %d (different "
+                                          "sinks) share RoutingTree node objects, so leaves of one net appear on the "
+                                          "tree of the other" % (len(nets), i, j), c)
+            ctx.tag("multi_ok")
+        elif res["err"] == "Disconnected":
+            if minfo.get("strong") and strong:
+                ctx.violation("disconnected-on-connected-machine",
+                              "route() raised MachineHasDisconnectedSubregion although every working chip reaches "
+                              "every other over working links: %s" % res.get("msg"), c)
+            ctx.tag("multi_err_disconnected")
+        else:
+            ctx.violation("undocumented-exception",
+                          "route() raised %s (%s); the only permitted failure is MachineHasDisconnectedSubregion"
+                          % (res["err"], res.get("msg")), c)
+            ctx.tag("multi_err_" + res["err"])
+        # --- correspondence with routeNets, net by net
+        diffs = []
+        if "proto_error" in model or "proto_error" in minfo:
+            ctx.mismatch("c03.protocol", repr(model)[:300], c)
+            continue
+        mres, merr = model["results"], model["err"]
+        if "ok" in res:
+            if merr is not None or len(mres) != len(nets):
+                diffs.append(("multi_outcome", merr, "ok"))
+            if len(recs) != len(nets):
+                diffs.append(("multi_ner_net_calls", len(nets), len(recs)))
+        else:
+            if merr != res["err"]:
+                diffs.append(("multi_outcome", merr, res["err"]))
+            if merr == "Disconnected" and minfo.get("strong"):
+                diffs.append(("disconnected_theorem", "Disconnected", "stronglyConnected = true"))
+            if len(recs) != len(mres) + 1 and not diffs:
+                diffs.append(("multi_failing_net", len(mres), len(recs) - 1))
+        if not diffs:
+            for i, mo in enumerate(mres):
+                rec = recs[i]
+                if mo["ner"] != rec["ner"]:
+                    diffs.append(("ner_net[net %d]" % i, mo["ner"], rec["ner"]))
+                elif mo["repaired"] != rec["repaired"]:
+                    diffs.append(("route_has_dead_links[net %d]" % i, mo["repaired"], rec["repaired"]))
+                elif mo.get("model_valid") is not True:
+                    diffs.append(("model_valid_theorem[net %d]" % i, mo.get("model_valid"), True))
+                elif rec["copy"] is not None and mo["copy"] is not None and \
+                        dict(mo["copy"], broken=sorted(mo["copy"]["broken"])) != rec["copy"]:
+                    diffs.append(("copy_and_disconnect_tree[net %d]" % i, mo["copy"], rec["copy"]))
+                elif mo["paths"] != rec["paths"]:
+                    diffs.append(("a_star[net %d]" % i, mo["paths"], rec["paths"]))
+                elif "ok" in res:
+                    lookup = rec["lookup"]
+                    if forest_of_lookup(lookup) != mo["forest"]:
+                        diffs.append(("avoid_dead_links[net %d]" % i, mo["forest"], forest_of_lookup(lookup)))
+                    elif leaves_of_lookup(lookup) != group_leaves(mo["leaves"]):
+                        diffs.append(("sinks[net %d]" % i, group_leaves(mo["leaves"]), leaves_of_lookup(lookup)))
+                    else:
+                        last = max(k for k in range(len(nets)) if res["ok"]["objs"][k] is res["ok"]["objs"][i])
+                        if last == i and (list(res["ok"]["roots"][i].chip) != mo["root"] or
+                                          lookup.get(res["ok"]["roots"][i].chip) is not res["ok"]["roots"][i]):
+                            diffs.append(("root[net %d]" % i, mo["root"], list(res["ok"]["roots"][i].chip)))
+                if diffs:
+                    break
+        if diffs:
+            st, a, b = diffs[0]
+            ctx.mismatch("c03." + st.split("[")[0], "first differing stage %s: model=%s impl=%s"
+                         % (st, str(a)[:400], str(b)[:400]), c)
+            ctx.tag("mismatch_" + st.split("[")[0])
+        # --- distribution
+        ctx.tag("multi_nets_%d" % len(nets))
+        groups = {}
+        for n in nets:
+            key = (tuple(c["place"][str(n["source"])]), frozenset(tuple(c["place"][str(v)]) for v in n["sinks"]))
+            groups.setdefault(key, []).append(sorted(map(tuple, multi_sinks_json(c, n))))
+        clash = any(len(set(map(repr, g))) > 1 for g in groups.values())
+        if clash:
+            ctx.tag("multi_same_chips_different_sinks")
+        if any(len(g) > 1 and len(set(map(repr, g))) < len(g) for g in groups.values()):
+            ctx.tag("multi_identical_nets")
+        if any(n["same_as"] is not None for n in nets):
+            ctx.tag("multi_same_net_object_twice")
+        vs = [set(n["sinks"]) for n in nets]
+        if any(vs[i] & vs[j] for i in range(len(nets)) for j in range(i + 1, len(nets))):
+            ctx.tag("multi_vertex_sink_of_several_nets")
+        if any(r["repaired"] for r in recs):
+            ctx.tag("multi_repaired")
+        ctx.case(c, clash or any(r["paths"] for r in recs))
+
+
+# --------------------------------------------------------------------------------------------
 # component streams: a_star and longest_dimension_first called directly (inputs route() rarely produces)
 def gen_component(rng):
     mach = gen_machine(rng, SIZES_Q)
@@ -605,13 +965,15 @@ def run(ctx):
     ctx.assumptions += [
         "vertices of a net are placed on working chips, core allocations are non-empty slices within 0..18, endpoint "
         "routes are members of Routes (what place()/allocate() and the constraint classes produce)",
-        "one net per call is checked (route() treats nets independently)",
+        "independence of the nets of one call is a theorem about the model (routeNets_independent) and is validated "
+        "on the code by the multi-net stream (per-net oracle, per-net correspondence, no shared node objects)",
         "whole-net validity and the error clause are proved for the Lean model on every machine (routeNet_valid, "
         "route_only_failure); the correspondence of the model with the code is validated per case, not proved"]
     cdir = os.path.join(os.path.dirname(os.path.dirname(os.path.abspath(__file__))), "corpus", "C03")
     if os.path.isdir(cdir):
         corpus = [json.load(open(os.path.join(cdir, f)))["case"] for f in sorted(os.listdir(cdir)) if f.endswith(".json")]
-        eval_cases(ctx, corpus)
+        eval_cases(ctx, [c for c in corpus if c.get("kind") != "multi"])
+        eval_multi(ctx, [c for c in corpus if c.get("kind") == "multi"])
         ctx.tag(*["corpus"] * len(corpus))
     n = ctx.scale(1500, 60000)
     if ctx.extended:
@@ -621,6 +983,10 @@ def run(ctx):
         cases += exhaustive_small(ctx)
     for i in range(0, len(cases), 2000):
         eval_cases(ctx, cases[i:i + 2000])
+    nm = ctx.scale(500, 15000) * (4 if ctx.extended and ctx.quick else 1)
+    multi = [gen_multi(ctx.rng, gen_machine(ctx.rng, SIZES_Q)) for _ in range(nm)]
+    for i in range(0, len(multi), 1000):
+        eval_multi(ctx, multi[i:i + 1000])
     comp = [gen_component(ctx.rng) for _ in range(n // 3)]
     for i in range(0, len(comp), 5000):
         eval_components(ctx, comp[i:i + 5000])
@@ -631,5 +997,7 @@ def replay(ctx, payload):
     case = payload["case"]
     if case.get("kind") in ("a_star", "ldf"):
         eval_components(ctx, [case])
+    elif case.get("kind") == "multi":
+        eval_multi(ctx, [case])
     else:
         eval_cases(ctx, [case])
